@@ -180,6 +180,20 @@ func idKey(name string, tags map[string]string) string {
 	return b.String()
 }
 
+var cardinalityNames = []string{"tally.internal.counter_cardinality", "tally.internal.gauge_cardinality", "tally.internal.histogram_cardinality", "tally.internal.num_active_scopes"}
+
+// isInternal recognises the library's own metrics: the cardinality gauges by
+// their documented names mapped through the model sanitiser, and the M3
+// reporter's self metrics by prefix.
+func (env *Env) isInternal(name string) bool {
+	for _, n := range cardinalityNames {
+		if name == env.Model.sanName(n) {
+			return true
+		}
+	}
+	return isInternalName(name)
+}
+
 func isInternalName(name string) bool {
 	// tally's own cardinality metrics and the M3 reporter's self metrics, by
 	// their documented names; a sanitiser may have replaced '.', '-' or '_'.
